@@ -17,6 +17,10 @@ func init() {
 			ruleAndOr(r)
 			ruleLPOffload(r)
 			ruleLPPipe(r)
+			ruleGroupEntries(r)
+			ruleTypeSwitchExhaustive(r, enginePkg, "", "buildStage", logqlPkg, "PipelineStage", 13, false)
+			ruleTypeSwitchExhaustive(r, enginePkg, "", "buildLabelPredicate", logqlPkg, "LabelPredicate", 7, false)
+			ruleNilNil(r, []string{enginePkg}, map[string]string{})
 		},
 	})
 }
